@@ -36,7 +36,7 @@ type pool struct {
 	plugins []*rt.Plugin // ascending index
 }
 
-func newPool(base string, idx []string, regOrder []int) (*pool, error) {
+func newPool(base string, idx []string, regOrder []int, twins bool) (*pool, error) {
 	// time-outs are not under test in this driver: a scripted plugin that is merely slow under load (race
 	// detector, concurrent callers, a busy machine) must not be dropped by the runtime
 	adaptation.SetPluginRegistrationTimeout(60 * time.Second)
@@ -47,14 +47,54 @@ func newPool(base string, idx []string, regOrder []int) (*pool, error) {
 	}
 	p := &pool{rt: r, plugins: make([]*rt.Plugin, len(idx))}
 	for _, k := range regOrder {
-		pl, err := r.AddPlugin(idx[k], fmt.Sprintf("p%d", k+1))
+		name := fmt.Sprintf("p%d", k+1)
+		if twins {
+			name = "twin" // every instance registers under the same index and name
+		}
+		pl, err := r.AddPlugin(idx[k], name)
 		if err != nil {
 			r.Close()
 			return nil, err
 		}
 		p.plugins[k] = pl
 	}
+	if twins {
+		if err := p.calibrate(); err != nil {
+			r.Close()
+			return nil, err
+		}
+	}
 	return p, nil
+}
+
+// calibrate measures the invocation order of a pool whose plugins share one index (the order among equal
+// indices is not specified, only fixed until the next registration): every plugin adds one environment
+// variable to a probe container and the reply lists them in invocation order.
+func (p *pool) calibrate() error {
+	const id = "calibrate"
+	for k, pl := range p.plugins {
+		pl.Script(id, rt.Answer{Adjust: &api.ContainerAdjustment{Env: []*api.KeyValue{{Key: fmt.Sprintf("ORD%d", k), Value: "1"}}}})
+	}
+	pod := &api.PodSandbox{Id: "pod-" + id, Name: "pod"}
+	rpl, err := p.rt.A.CreateContainer(context.Background(), &api.CreateContainerRequest{Pod: pod, Container: &api.Container{Id: id, PodSandboxId: pod.Id, Name: id}})
+	if err != nil {
+		return fmt.Errorf("calibrating the twin pool: %w", err)
+	}
+	var order []*rt.Plugin
+	for _, e := range rpl.GetAdjust().GetEnv() {
+		var k int
+		if _, err := fmt.Sscanf(e.Key, "ORD%d", &k); err == nil && k >= 0 && k < len(p.plugins) {
+			order = append(order, p.plugins[k])
+		}
+	}
+	if len(order) != len(p.plugins) {
+		return fmt.Errorf("calibrating the twin pool: %d of %d plugins answered", len(order), len(p.plugins))
+	}
+	for _, pl := range p.plugins {
+		pl.TakeSeen(id)
+	}
+	p.plugins = order
+	return nil
 }
 
 func errClass(err error) (int, string) {
@@ -415,17 +455,23 @@ func driveAdapt(c *hx.Ctx) error {
 	for i, v := range nums {
 		idxB[i] = fmt.Sprintf("%02d", v)
 	}
-	pA, err := newPool(base, idxA, []int{0, 1, 2, 3, 4, 5})
+	pA, err := newPool(base, idxA, []int{0, 1, 2, 3, 4, 5}, false)
 	if err != nil {
 		return err
 	}
 	defer pA.rt.Close()
-	pB, err := newPool(base, idxB, g.r.Perm(poolSize))
+	pB, err := newPool(base, idxB, g.r.Perm(poolSize), false)
 	if err != nil {
 		return err
 	}
 	defer pB.rt.Close()
-	pools := []*pool{pA, pB}
+	// six instances registered under one and the same index and name: they are six plugins all the same
+	pC, err := newPool(base, []string{"30", "30", "30", "30", "30", "30"}, []int{0, 1, 2, 3, 4, 5}, true)
+	if err != nil {
+		return err
+	}
+	defer pC.rt.Close()
+	pools := []*pool{pA, pB, pC}
 
 	// plan
 	var cases []*Case
@@ -497,7 +543,7 @@ func driveAdapt(c *hx.Ctx) error {
 		go func(w int) {
 			defer wg.Done()
 			for i := range work {
-				if err := pools[i%2].execute(cases[i]); err != nil {
+				if err := pools[i%len(pools)].execute(cases[i]); err != nil {
 					emu.Lock()
 					if firstErr == nil {
 						firstErr = fmt.Errorf("case %d (%s): %w", i, cases[i].Stream, err)
@@ -556,7 +602,7 @@ func driveAdapt(c *hx.Ctx) error {
 			c.HarnessError("collision stream for %v produced no conflict (%q)", kind, want)
 		}
 	}
-	c.Stats.Rule = "adapt: requests against a real Adaptation with 6 scripted stub plugins per pool (two pools: ascending indices; random indices registered in random order), 8 concurrent callers; streams: per-item-kind collisions (plain / remove-then-set / lone removal in between / set-before-marker / take-over by a plugin in between then plain set; echo values equal to the current value and explicit zeros; via adjustment or via updates of a third party), disjoint writers, removals of original items, mixed random, self-update, ignore-failure, update requests with pre-populated resources, stop requests; a case is non-trivial when some plugin answers with an adjustment or update; distinct by full input"
+	c.Stats.Rule = "adapt: requests against a real Adaptation with 6 scripted stub plugins per pool (three pools: ascending indices; random indices registered in random order; six instances registered under one and the same index and name, invocation order measured), 8 concurrent callers; streams: per-item-kind collisions (plain / remove-then-set / lone removal in between / set-before-marker / take-over by a plugin in between then plain set; echo values equal to the current value and explicit zeros; via adjustment or via updates of a third party), disjoint writers, removals of original items, mixed random, self-update, ignore-failure, update requests with pre-populated resources, stop requests; a case is non-trivial when some plugin answers with an adjustment or update; distinct by full input"
 	return nil
 }
 
